@@ -499,4 +499,209 @@ theorem written_is_read (fmtEs : List Elem)
         simp [ha]
       · exact absurd ha (by simp)
 
+/-! ## The getters of `DateType` and `TimeType`: the plain form and the form with `Z`
+
+The stack only READS these two types. For every list of layouts of the family (`2006-01-02` resp. `15:04:05` with an
+optional `.999…`, then literal bytes or one zone element), in any order: the plain text and the text with `Z` of every
+date of the years 0000–9999 resp. every time of day are read as midnight UTC of that date resp. that time on
+1 January of the year 0 — provided some layout of the list accepts the suffix. -/
+
+/-- does the tail accept the suffix (`[]` or `Z`)? -/
+def Tail.acceptsSuffix (tl : Tail) (v : Text) : Bool :=
+  match tl with
+  | .lits bs => bs == v
+  | .zone iso => iso && v == [90]
+
+theorem parse_tail (tl : Tail) (v : Text) (hv : v = [] ∨ v = [90]) (f : Fields) :
+    (parseElems tl.elems v f).isSome = tl.acceptsSuffix v ∧
+    ∀ g, parseElems tl.elems v f = some g → g.year = f.year ∧ g.month = f.month ∧ g.day = f.day ∧ g.hour = f.hour ∧
+      g.minute = f.minute ∧ g.second = f.second ∧ g.ns = f.ns ∧ g.zoff = f.zoff := by
+  cases tl with
+  | lits bs =>
+    simp only [Tail.elems, parse_lits, Tail.acceptsSuffix]
+    by_cases hb : v = bs
+    · subst hb; simp
+    · have hb' : ¬ (bs = v) := fun h => hb h.symm
+      simp [hb, hb']
+  | zone iso =>
+    rcases hv with rfl | rfl <;> cases iso <;> simp [Tail.elems, parseElems, Tail.acceptsSuffix, takeZone]
+
+theorem instantOf_eq (f g : Fields) (hy : g.year = f.year) (hm : g.month = f.month) (hd : g.day = f.day)
+    (hh : g.hour = f.hour) (hmi : g.minute = f.minute) (hs : g.second = f.second) (hn : g.ns = f.ns)
+    (hz : g.zoff = f.zoff) (hzn : f.zoff = none) : instantOf g = instantOf f := by
+  unfold instantOf
+  rw [hy, hm, hd, hh, hmi, hs, hn, hz, hzn]
+  cases g.utc <;> cases f.utc <;> rfl
+
+def dateText (w : Wall) (v : Text) : Text := fmtYear w.year ++ 45 :: (fmt2 w.month ++ 45 :: (fmt2 w.day ++ v))
+
+def timeText (h mi s : Nat) (v : Text) : Text := fmt2 h ++ 58 :: (fmt2 mi ++ 58 :: (fmt2 s ++ v))
+
+/-- one layout of the date family on the plain / `Z` text of a date -/
+theorem parse_date_layout (w : Wall) (hy : w.year < 10000) (hm1 : 1 ≤ w.month) (hm : w.month ≤ 12) (hd1 : 1 ≤ w.day)
+    (hdIn : w.day ≤ daysIn w.month w.year) (hd : w.day ≤ 31) (tl : Tail) (v : Text) (hv : v = [] ∨ v = [90]) :
+    parse (canonDate ++ tl.elems) (dateText w v) =
+      if tl.acceptsSuffix v then some ⟨secOfWall w.year w.month w.day 0 0 0, 0, 0⟩ else none := by
+  unfold parse
+  rw [dateText, parse_date _ _ _ hy hm1 hm (by omega)]
+  obtain ⟨h1, h2⟩ := parse_tail tl v hv { ({} : Fields) with year := w.year, month := some w.month, day := some w.day }
+  cases hp : parseElems tl.elems v { ({} : Fields) with year := w.year, month := some w.month, day := some w.day } with
+  | none =>
+    rw [hp] at h1
+    have : tl.acceptsSuffix v = false := by simpa using h1.symm
+    simp [this]
+  | some g =>
+    rw [hp] at h1
+    have ha : tl.acceptsSuffix v = true := by simpa using h1.symm
+    obtain ⟨e1, e2, e3, e4, e5, e6, e7, e8⟩ := h2 g hp
+    simp only [ha, if_true]
+    rw [instantOf_eq { ({} : Fields) with year := w.year, month := some w.month, day := some w.day } g e1 e2 e3 e4 e5 e6 e7 e8 rfl]
+    exact instantOf_valid _ _ _ _ _ _ _ _ hd1 hdIn
+
+/-- one layout of the time-of-day family on the plain / `Z` text of a time of day -/
+theorem parse_time_layout (h mi s : Nat) (hh : h < 24) (hmi : mi < 60) (hs : s < 60) (fr : Option (Nat × Bool))
+    (tl : Tail) (v : Text) (hv : v = [] ∨ v = [90]) :
+    parse (canonTime ++ (fracPart fr ++ tl.elems)) (timeText h mi s v) =
+      if tl.acceptsSuffix v then some ⟨secOfWall 0 1 1 h mi s, 0, 0⟩ else none := by
+  have hz : (if isFrac (nextStd (fracPart fr ++ tl.elems)) = true then none else takeFrac v) = none := by
+    rcases hv with rfl | rfl <;> split <;> rfl
+  have hfr : ∀ f : Fields, parseElems (fracPart fr ++ tl.elems) v f = parseElems tl.elems v f := by
+    intro f
+    cases fr with
+    | none => rfl
+    | some nc =>
+      obtain ⟨n, c⟩ := nc
+      have : takeFrac v = none := by rcases hv with rfl | rfl <;> rfl
+      simp only [fracPart, List.cons_append, List.nil_append, parseElems, this]
+  unfold parse
+  rw [timeText, parse_time _ _ _ hh hmi hs, hz]
+  simp only
+  rw [hfr]
+  obtain ⟨h1, h2⟩ := parse_tail tl v hv { ({} : Fields) with hour := h, minute := mi, second := s }
+  cases hp : parseElems tl.elems v { ({} : Fields) with hour := h, minute := mi, second := s } with
+  | none =>
+    rw [hp] at h1
+    have : tl.acceptsSuffix v = false := by simpa using h1.symm
+    simp [this]
+  | some g =>
+    rw [hp] at h1
+    have ha : tl.acceptsSuffix v = true := by simpa using h1.symm
+    obtain ⟨e1, e2, e3, e4, e5, e6, e7, e8⟩ := h2 g hp
+    simp only [ha, if_true]
+    rw [instantOf_eq { ({} : Fields) with hour := h, minute := mi, second := s } g e1 e2 e3 e4 e5 e6 e7 e8 rfl]
+    simp [instantOf, daysIn, isLeap, secOfWall]
+
+/-- a layout of the family with the given prefix: prefix, an optional `.999…` (where a fraction makes sense), then
+    literal bytes or one zone element -/
+def classifyWith (pre : List Elem) (withFrac : Bool) (es : List Elem) : Option (Option (Nat × Bool) × Tail) :=
+  if es.take pre.length = pre then
+    if withFrac then
+      (classifyTail (splitFrac (es.drop pre.length)).2).map fun tl => ((splitFrac (es.drop pre.length)).1, tl)
+    else (classifyTail (es.drop pre.length)).map fun tl => (none, tl)
+  else none
+
+theorem classifyWith_sound (pre : List Elem) (withFrac : Bool) (es : List Elem) (fr : Option (Nat × Bool)) (tl : Tail)
+    (h : classifyWith pre withFrac es = some (fr, tl)) :
+    es = pre ++ (fracPart fr ++ tl.elems) ∧ (withFrac = false → fr = none) := by
+  unfold classifyWith at h
+  split at h
+  · rename_i hpre
+    cases withFrac with
+    | true =>
+      simp only [if_true, Option.map_eq_some_iff, Prod.mk.injEq] at h
+      obtain ⟨tl', h1, h2, h3⟩ := h
+      subst h3
+      have := classifyTail_sound _ _ h1
+      refine ⟨?_, fun hf => absurd hf (by simp)⟩
+      rw [← this, ← h2, ← splitFrac_sound]
+      conv => lhs; rw [← List.take_append_drop pre.length es, hpre]
+    | false =>
+      simp only [Bool.false_eq_true, if_false, Option.map_eq_some_iff, Prod.mk.injEq] at h
+      obtain ⟨tl', h1, h2, h3⟩ := h
+      subst h3
+      have := classifyTail_sound _ _ h1
+      refine ⟨?_, fun _ => h2.symm⟩
+      rw [← h2, ← this]
+      simp only [fracPart, List.nil_append]
+      conv => lhs; rw [← List.take_append_drop pre.length es, hpre]
+  · exact absurd h (by simp)
+
+def acceptsWith (pre : List Elem) (withFrac : Bool) (v : Text) (es : List Elem) : Bool :=
+  match classifyWith pre withFrac es with
+  | some (_, tl) => tl.acceptsSuffix v
+  | none => false
+
+/-- `(*DateType).GetTime` on the plain / `Z` text of any date of the years 0000–9999: midnight UTC of that date -/
+theorem date_is_read (ls : List (List Elem)) (v : Text) (hv : v = [] ∨ v = [90])
+    (hcls : ls.all (fun es => (classifyWith canonDate false es).isSome) = true)
+    (hacc : ls.any (acceptsWith canonDate false v) = true)
+    (sec : Int) (h0 : minSec ≤ sec) (h1 : sec ≤ maxSec) :
+    ∃ w, wallOf sec 0 0 = some w ∧
+      getTime ls (dateText w v) = some ⟨sec - ((w.hour * 3600 + w.minute * 60 + w.second : Nat) : Int), 0, 0⟩ := by
+  obtain ⟨w, hw, hy, hm1, hm, hd1, hdIn, hd, _, _, _, _, _, hsec⟩ := wall_spec sec 0 0 (by omega) (by omega)
+  refine ⟨w, hw, ?_⟩
+  have hmid : secOfWall w.year w.month w.day 0 0 0 = sec - ((w.hour * 3600 + w.minute * 60 + w.second : Nat) : Int) := by
+    simp only [secOfWall, epochShift, shift400, Nat.zero_mul, Nat.add_zero, Int.add_zero, Int.natCast_zero, Int.ofNat_zero] at hsec ⊢
+    generalize (daysOf (w.year + 400) w.month w.day : Nat) = D at *
+    omega
+  have one : ∀ es fr tl, classifyWith canonDate false es = some (fr, tl) →
+      parse es (dateText w v) = if tl.acceptsSuffix v then some ⟨sec - ((w.hour * 3600 + w.minute * 60 + w.second : Nat) : Int), 0, 0⟩ else none := by
+    intro es fr tl hc
+    obtain ⟨he, hfr⟩ := classifyWith_sound _ _ es fr tl hc
+    have : fr = none := hfr rfl
+    subst this
+    rw [he]
+    simp only [fracPart, List.nil_append]
+    rw [parse_date_layout w hy hm1 hm hd1 hdIn hd tl v hv, hmid]
+  apply getTime_first
+  · intro es hes
+    have hc := (List.all_eq_true.mp hcls) es hes
+    obtain ⟨⟨fr, tl⟩, hcl⟩ := Option.isSome_iff_exists.mp hc
+    rw [one es fr tl hcl]
+    by_cases ha : tl.acceptsSuffix v = true
+    · left; simp [ha]
+    · right; simp [ha]
+  · obtain ⟨es, hes, ha⟩ := List.any_eq_true.mp hacc
+    refine ⟨es, hes, ?_⟩
+    unfold acceptsWith at ha
+    split at ha
+    · rename_i fr tl hcl
+      rw [one es fr tl hcl]
+      simp [ha]
+    · exact absurd ha (by simp)
+
+/-- `(*TimeType).GetTime` on the plain / `Z` text of any time of day: that time on 1 January of the year 0, UTC -/
+theorem tod_is_read (ls : List (List Elem)) (v : Text) (hv : v = [] ∨ v = [90])
+    (hcls : ls.all (fun es => (classifyWith canonTime true es).isSome) = true)
+    (hacc : ls.any (acceptsWith canonTime true v) = true)
+    (h mi s : Nat) (hh : h < 24) (hmi : mi < 60) (hs : s < 60) :
+    getTime ls (timeText h mi s v) = some ⟨minSec + ((h * 3600 + mi * 60 + s : Nat) : Int), 0, 0⟩ := by
+  have hmid : secOfWall 0 1 1 h mi s = minSec + ((h * 3600 + mi * 60 + s : Nat) : Int) := by
+    have e : daysOf (0 + 400) 1 1 = 146037 := by decide
+    unfold secOfWall minSec
+    rw [e]
+    simp only [epochShift, shift400]
+    omega
+  have one : ∀ es fr tl, classifyWith canonTime true es = some (fr, tl) →
+      parse es (timeText h mi s v) = if tl.acceptsSuffix v then some ⟨minSec + ((h * 3600 + mi * 60 + s : Nat) : Int), 0, 0⟩ else none := by
+    intro es fr tl hc
+    obtain ⟨he, _⟩ := classifyWith_sound _ _ es fr tl hc
+    rw [he, parse_time_layout h mi s hh hmi hs fr tl v hv, hmid]
+  apply getTime_first
+  · intro es hes
+    have hc := (List.all_eq_true.mp hcls) es hes
+    obtain ⟨⟨fr, tl⟩, hcl⟩ := Option.isSome_iff_exists.mp hc
+    rw [one es fr tl hcl]
+    by_cases ha : tl.acceptsSuffix v = true
+    · left; simp [ha]
+    · right; simp [ha]
+  · obtain ⟨es, hes, ha⟩ := List.any_eq_true.mp hacc
+    refine ⟨es, hes, ?_⟩
+    unfold acceptsWith at ha
+    split at ha
+    · rename_i fr tl hcl
+      rw [one es fr tl hcl]
+      simp [ha]
+    · exact absurd ha (by simp)
+
 end Spine.TimeText
